@@ -255,6 +255,26 @@ func (fr *frame) binop(x *ssa.BinOp) Value {
 				}
 			}
 		}
+		for _, pr := range [][2]Value{{a, b}, {b, a}} {
+			if tbl, ok := fx.tables[pr[1].T]; ok {
+				// x & table[k]: distribute over the table entries (each a constant mask)
+				t := Term("0")
+				for j := len(tbl.vals) - 1; j >= 0; j-- {
+					var e Term
+					if nb := maskBits(tbl.vals[j]); nb >= 0 {
+						e = Mod(pr[0].T, Pow2(nb))
+					} else if lo, w, ok := contiguousMask(tbl.vals[j]); ok {
+						e = Mul(Mod(Div(pr[0].T, Pow2(lo)), Pow2(w)), Pow2(lo))
+					} else if tbl.vals[j] == 0 {
+						e = "0"
+					} else {
+						e = app("band", pr[0].T, Num(tbl.vals[j]))
+					}
+					t = Ite(Eq(tbl.idx, Num(int64(j))), e, t)
+				}
+				return IntV(fx.enc.Def("and", "Int", t), T)
+			}
+		}
 		r := fx.enc.Def("and", "Int", app("band", a.T, b.T))
 		lo, hi, _, signed, ok := intRange(T)
 		if ok && !signed {
@@ -267,6 +287,25 @@ func (fr *frame) binop(x *ssa.BinOp) Value {
 		ai, bi := fr.bits(x.X), fr.bits(x.Y)
 		if (ai.width > 0 && bi.lowZero >= ai.width) || (bi.width > 0 && ai.lowZero >= bi.width) {
 			return IntV(fx.enc.Def("or", "Int", Add(a.T, b.T)), T)
+		}
+		for _, pr := range [][2]Value{{a, b}, {b, a}} {
+			if tbl, ok := fx.tables[pr[1].T]; ok {
+				t := Term(pr[0].T)
+				single := true
+				for j := len(tbl.vals) - 1; j >= 0; j-- {
+					lo, w, ok := contiguousMask(tbl.vals[j])
+					if !ok || w != 1 {
+						single = false
+						break
+					}
+					// x | 2^lo = x + 2^lo when that bit is clear
+					e := Ite(Eq(Mod(Div(pr[0].T, Pow2(lo)), "2"), "1"), pr[0].T, Add(pr[0].T, Pow2(lo)))
+					t = Ite(Eq(tbl.idx, Num(int64(j))), e, t)
+				}
+				if single {
+					return IntV(fx.enc.Def("or", "Int", t), T)
+				}
+			}
 		}
 		r := fx.enc.Def("or", "Int", app("bor", a.T, b.T))
 		lo, hi, _, signed, ok := intRange(T)
@@ -296,6 +335,20 @@ func (fr *frame) binop(x *ssa.BinOp) Value {
 		if k, ok := isNumLit(b.T); ok && k < 64 {
 			return IntV(fx.enc.Def("shl", "Int", wrapTo(Mul(a.T, Pow2(int(k))), T)), T)
 		}
+		if av, ok := isNumLit(a.T); ok {
+			if w := fr.bits(x.Y).width; w > 0 && w <= 4 {
+				_, _, tb, _, _ := intRange(T)
+				var vals []int64
+				for j := int64(0); j < int64(1)<<uint(w); j++ {
+					v := av << uint(j)
+					if tb < 64 {
+						v &= (int64(1) << uint(tb)) - 1
+					}
+					vals = append(vals, v)
+				}
+				return fr.tableValue(b.T, vals, T)
+			}
+		}
 		r := fx.enc.Def("shl", "Int", app("shl", a.T, b.T))
 		if lo, hi, _, _, ok := intRange(T); ok {
 			fx.enc.Assume(And(Le(lo, r), Le(r, hi)))
@@ -307,6 +360,16 @@ func (fr *frame) binop(x *ssa.BinOp) Value {
 	case token.SHR:
 		if k, ok := isNumLit(b.T); ok && k < 64 {
 			return IntV(fx.enc.Def("shr", "Int", Div(a.T, Pow2(int(k)))), T)
+		}
+		// constant >> small variable amount: explicit table
+		if av, ok := isNumLit(a.T); ok {
+			if w := fr.bits(x.Y).width; w > 0 && w <= 4 {
+				var vals []int64
+				for j := int64(0); j < int64(1)<<uint(w); j++ {
+					vals = append(vals, av>>uint(j))
+				}
+				return fr.tableValue(b.T, vals, T)
+			}
 		}
 		r := fx.enc.Def("shr", "Int", app("shr", a.T, b.T))
 		if lo, hi, _, signed, ok := intRange(T); ok {
@@ -591,6 +654,10 @@ func (fr *frame) makeInterface(x *ssa.MakeInterface, st *State) Value {
 	if v.Kind == KBool {
 		return Value{Kind: KIface, Tag: tag, T: BoolToInt(v.T), Typ: x.Type()}
 	}
+	if st2, ok := under(T).(*types.Struct); ok && st2.NumFields() == 0 {
+		// zero-size value: identity is the type alone
+		return Value{Kind: KIface, Tag: tag, T: "0", Typ: x.Type()}
+	}
 	// box
 	addr := fr.freshAddr(st, "box", Num(size(T)))
 	fx.storeAt(st, addr, T, "M."+typeKey(T), v)
@@ -727,4 +794,24 @@ func (fr *frame) deferCall(x *ssa.Defer, st *State) {
 		fr.fx.note("conditional defer in %s: modelled as executed at function exit on every later return", fr.name)
 	}
 	deferTable[fr] = append(deferTable[fr], x)
+}
+
+type tableInfo struct {
+	idx  Term
+	vals []int64
+}
+
+// tableValue builds ite(idx==0, v0, ite(idx==1, v1, ...)) and remembers its structure for later bit operations.
+func (fr *frame) tableValue(idx Term, vals []int64, T types.Type) Value {
+	fx := fr.fx
+	t := Num(vals[len(vals)-1])
+	for j := len(vals) - 2; j >= 0; j-- {
+		t = Ite(Eq(idx, Num(int64(j))), Num(vals[j]), t)
+	}
+	name := fx.enc.Def("tbl", "Int", t)
+	if fx.tables == nil {
+		fx.tables = map[Term]*tableInfo{}
+	}
+	fx.tables[name] = &tableInfo{idx: idx, vals: vals}
+	return IntV(name, T)
 }
